@@ -1,6 +1,6 @@
 (* Properties/C05.v — error messages carry a faithful target-spec trace down to the failing spec. *)
 From Coq Require Import Bool Lia List Arith String Ascii.
-From Glom Require Import Model.Trace Spec.TraceSpec Proofs.TraceProofs Proofs.TraceGeneral Proofs.TraceFull.
+From Glom Require Import Model.Trace Spec.TraceSpec Proofs.TraceProofs Proofs.TraceLib Proofs.TraceFull.
 Import ListNotations.
 Local Open Scope list_scope.
 
@@ -34,13 +34,14 @@ Proof. exact trace_value_shape_lemma. Qed.
 Print Assumptions trace_value_shape.
 
 (* THE GENERAL THEOREM — unbounded, every shape of the model: for EVERY spec built from leaves, dict specs, tuple chains, Coalesce
-   (with skipped values), Or, Switch and Check-style guards — any nesting depth, any number of children, every success / failure
+   (with skipped values, with and without a default that recovers), Or, Switch and Check-style guards — any nesting depth, any number of children, every success / failure
    pattern — whose occurrences are numbered apart below 1000 (so that different errors are different numbers, as they are different
    objects in glom), the outcome and the trace the breadcrumb machine renders ARE the structural reading of Spec/TraceSpec.v:
    the spec at every level from the root down to the innermost spec that failed, each with the target it received; for a chain the
    steps already done, in order, their own abandoned branches forgiven; for a branching spec every attempted branch with its own
    failure trace, a single failed attempt that was also the last one as a straight line; a Switch value under its key; each
-   error shown where it was raised.  The machine side is everything _glom, chain_child, the NO_PYFRAME walk, _unpack_stack do
+   error shown where it was raised; a failure that was recovered from (a Coalesce default, a skipped value, an earlier Or branch)
+   not in the straight line at all — _unpack_stack goes down only while the frame below still records an error.  The machine side is everything _glom, chain_child, the NO_PYFRAME walk, _unpack_stack do
    (frames re-wired under each other, top frames of finished steps overwritten, the error walking up the marked frames).
    Proofs/TraceFull.v: (1) by induction on the evaluation, with a frame-locality invariant and an exact account of what an
    evaluation does to the frames that existed before it, the raw descent _unpack_stack finds at a frame is a function of the
@@ -52,26 +53,8 @@ Print Assumptions trace_is_structural_reading.
 Example ex_general_hypotheses : wf full_example /\ fst (run full_example) = Exc 5003.
 Proof. split; [exact full_example_wf|vm_compute; reflexivity]. Qed.
 
-(* the same for the chain-free fragment, by the simpler development of Proofs/TraceGeneral.v (kept: its intermediate notions are
-   easier to read): for EVERY spec built from leaves, dict specs, Coalesce (with skipped values), Or and
-   Check-style guards — any nesting depth, any number of children, every success / failure pattern — whose occurrences are numbered
-   apart below 1000 (so that different errors are different numbers, as they are different objects in glom), the outcome and the
-   trace the breadcrumb machine renders (frames, LAST_CHILD_SCOPE / CHILD_ERRORS / CUR_ERROR, _unpack_stack's descent, branch
-   detection, push-down and trim) ARE the structural reading of Spec/TraceSpec.v: ancestors in order with the targets received,
-   every attempted branch with its own failure trace, a single failed attempt that was also the last one as a straight line,
-   abandoned and skipped alternatives absent, each error shown where it was raised.  Proved in two stages (Proofs/TraceGeneral.v):
-   the raw descent at a frame is a function of the spec alone (induction on the evaluation, with a frame-locality invariant), and the
-   presentation steps applied to it give the reading. *)
-Theorem trace_is_structural_reading_chainfree : forall s,
-  chainfree s = true -> wf s ->
-  fst (run s) = fst (expected s) /\ (forall e, fst (run s) = Exc e -> snd (run s) = snd (expected s)).
-Proof. exact chainfree_reading_lemma. Qed.
-Print Assumptions trace_is_structural_reading_chainfree.
-Example ex_chainfree_hypotheses : chainfree deep_example = true /\ wf deep_example.
-Proof. exact deep_example_ok. Qed.
-
 (* bounded companion, by evaluation (kept as a cross-check of the definitions: it does not need the numbering hypothesis' proof): for EVERY spec shape of nesting depth <= 2 with at most
-   two children per node over leaf / dict / chain / Coalesce / Or / Switch / Check-style guard (109074 shapes, every success / failure pattern
+   two children per node over leaf / dict / chain / Coalesce / Coalesce-with-default / Or / Switch / Check-style guard (152958 shapes, every success / failure pattern
    of the leaves), the trace the breadcrumb machine produces is exactly the structural reading of the property
    (Spec/TraceSpec.v: ancestors in order with the targets received, chain steps done, every attempted branch with its own
    failure trace, abandoned branches absent, errors where they were raised).  The unbounded statement is validated on every
@@ -96,4 +79,16 @@ Proof. vm_compute. reflexivity. Qed.
 Example ex_guard_branch :
   run (Alt 1 [Guard 2 false (Leaf 3 true); Chain 4 [SkipLeaf 5]])
   = (Exc 5001, [TR 1 7 (Some 5001) [[TR 2 7 (Some 6002) []]]]).
+Proof. vm_compute. reflexivity. Qed.
+(* a failure that was recovered from is not in the straight line: the Coalesce below recovered through its default, the chain went on
+   and failed later — the trace shows the Coalesce as a finished step and the step that failed, nothing of the recovered branches *)
+Example ex_recovered_default :
+  run (Chain 1 [AltD 2 [Leaf 3 false; Leaf 4 false]; Leaf 5 false])
+  = (Exc 5, [TR 1 7 None []; TR 2 7 None []; TR 5 3002 (Some 5) []]).
+Proof. vm_compute. reflexivity. Qed.
+(* the last thing evaluated under a failing Coalesce was a chain that ENDED in success (a skipped value) after recovering inside: the
+   only failed branch is listed as a branch, and the recovered chain does not appear *)
+Example ex_recovered_last_child :
+  run (Alt 1 [Leaf 2 false; Chain 3 [AltD 4 [Leaf 5 false]; SkipLeaf 6]])
+  = (Exc 5001, [TR 1 7 (Some 5001) [[TR 2 7 (Some 2) []]]]).
 Proof. vm_compute. reflexivity. Qed.
